@@ -7,11 +7,12 @@ of the framework on code where the properties hold.  Outcome in /verif/benign/<n
 import json, os as _os0
 _os0.environ.setdefault('VERIF_FROM_HEAD', '1')
 import json, os, subprocess, sys, glob, concurrent.futures, threading, re
-slots = 4; props = [f'C{i:02d}' for i in range(1, 19)]; match = ''
+slots = 4; props = [f'C{i:02d}' for i in range(1, 19)]; match = ''; scope = 'all'
 for i, a in enumerate(sys.argv):
     if a == '--slots': slots = int(sys.argv[i+1])
     if a == '--props': props = sys.argv[i+1].split(',')
     if a == '--match': match = sys.argv[i+1]
+    if a == '--scope': scope = sys.argv[i+1]
 names = sorted(os.path.basename(os.path.dirname(p)) for p in glob.glob('/verif/benign/*/patch.diff'))
 names = [n for n in names if re.search(match, n)]
 free = list(range(slots)); lock = threading.Lock()
@@ -26,13 +27,24 @@ def run(name):
         m = re.findall(r'test result: (\w+)\. (\d+) passed; (\d+) failed', t.stdout)
         suite_ok = t.returncode == 0 and any(int(x[1]) == 30 for x in m)
         out = {}
-        for p in props:
+        my_props = props
+        if scope == 'touched':
+            # the properties the patch was written against + those anchored in the files it touches
+            anc = {}
+            for l in open('/verif/properties.jsonl'):
+                pj = json.loads(l)
+                for f in pj['anchors']['files']: anc.setdefault(f, set()).add(pj['id'])
+            touched = re.findall(r'^\+\+\+ b/(\S+)', open(f'{d}/patch.diff').read(), re.M)
+            want = set(json.load(open(f'{d}/meta.json')).get('properties', []))
+            for f in touched: want |= anc.get(f, set())
+            my_props = [p for p in props if p in want]
+        for p in my_props:
             r = subprocess.run(['/verif/tools/mutrun.sh', f's{slot}', f'{d}/patch.diff', p], capture_output=True, text=True)
             lines = r.stdout.strip().split('\n')
             out[p] = {"exit": r.returncode, "lines": [l.strip()[:500] for l in lines if not re.match(r'C\d\d quick', l) and 'KNOWN-FINDING' not in l][:8]}
-        if len(props) < 18 and os.path.exists(f'{d}/result.json'):
+        if len(my_props) < 18 and os.path.exists(f'{d}/result.json') and scope == 'all':
             out = {**json.load(open(f'{d}/result.json')).get('checks', {}), **out}
-        res = {"own_suite_passes_with_patch": suite_ok, "checks": out, "alarms": [p for p, v in out.items() if v["exit"] != 0]}
+        res = {"own_suite_passes_with_patch": suite_ok, "checked_properties": my_props, "checks": out, "alarms": [p for p, v in out.items() if v["exit"] != 0]}
         json.dump(res, open(f'{d}/result.json', 'w'), indent=1)
         print(name, 'suite_ok=%s' % suite_ok, 'alarms=%s' % res['alarms'], flush=True)
     finally:
